@@ -154,10 +154,12 @@ class StreamStatistics:
             self.max_seq = packet.sequence_number
 
             if packet.timestamp != self._last_timestamp and self.packets_received > 1:
-                diff = abs(
-                    (arrival - self._last_arrival)
-                    - (packet.timestamp - self._last_timestamp)
+                # RFC 3550 A.8: D is computed in 32-bit arithmetic (timestamps and
+                # arrival times wrap modulo 2^32) and interpreted as a signed value.
+                diff = (arrival - self._last_arrival) - (
+                    packet.timestamp - self._last_timestamp
                 )
+                diff = abs(((diff + (1 << 31)) & 0xFFFFFFFF) - (1 << 31))
                 self._jitter_q4 += diff - ((self._jitter_q4 + 8) >> 4)
 
             self._last_arrival = arrival
